@@ -88,6 +88,11 @@ def main():
             procs.append((p, out, 's%d' % s))
         inconclusive = []
         results = []
+        s7 = None
+        if a.tier in getattr(mod, 'S7', ()):
+            s7out = os.path.join(tmp, 's7.json')
+            s7 = (subprocess.Popen([PY, '-B', '-m', 'pytest', '-q', '-p', 'no:cacheprovider', '-p', 'vmon.pytest_plugin', os.path.join(REPO, 'tests')],
+                                   env=dict(env, VMON_S7_OUT=s7out), cwd=REPO, stdout=subprocess.DEVNULL, stderr=subprocess.DEVNULL), s7out)
         deadline = t0 + wall_limit
         for p, out, name in procs:
             try:
@@ -101,7 +106,15 @@ def main():
                 inconclusive.append('shard %s died without a result: %s' % (name, err.strip().replace('\n', ' | ')))
                 continue
             results.append(json.load(open(out)))
-        verdict = finish(pid, a, mod, results, inconclusive, t0, env)
+        s7res = None
+        if s7:
+            try:
+                s7[0].wait(timeout=max(1, deadline - time.time()))
+                s7res = json.load(open(s7[1]))
+            except Exception as e:
+                s7[0].kill()
+                inconclusive.append('S7 (repository suite under the sanitizer layer) produced no result: %s' % type(e).__name__)
+        verdict = finish(pid, a, mod, results, inconclusive, t0, env, s7res)
     finally:
         for p, _, _ in procs:
             if p.poll() is None:
@@ -123,7 +136,7 @@ def pick_samples(samples, n=10):
             out.append(c)
     return out[:max(n, len(kinds))][:16]
 
-def finish(pid, a, mod, results, inconclusive, t0, env):
+def finish(pid, a, mod, results, inconclusive, t0, env, s7res=None):
     mon = collections.Counter(); monfail = collections.Counter()
     classes = set(); states = collections.defaultdict(set); statecount = collections.Counter()
     fails = []; failkeys = collections.Counter(); samples = []
@@ -153,6 +166,19 @@ def finish(pid, a, mod, results, inconclusive, t0, env):
         else:
             cases += r['cases']
         s1.update(r.get('s1', {}))
+    if s7res is not None:
+        # S7: the repository's own suite under S1/S3 is one more workload; a firing contract is a witness
+        mon['S7-suite-under-sanitizers'] += s7res['tests']
+        mon['S1-payload-invariant'] += sum(s7res['s1_evaluations'].values())
+        s1.update(s7res['s1_evaluations'])
+        for what in s7res['s1_failures'][:5]:
+            fails.append({'case': {'k': 'S7-repo-suite'}, 'fail': {'monitor': 'S1-payload-invariant', 'got': what, 'want': None, 'key': None}})
+            failkeys['?S1-payload-invariant'] += 1
+        for chg in s7res['s3_changes'][:5]:
+            fails.append({'case': {'k': 'S7-repo-suite', 'test': chg['test']}, 'fail': {'monitor': 'S3-global-state', 'got': chg['changed'], 'want': [], 'key': None}})
+            failkeys['?S3-global-state'] += 1
+        if s7res['tests'] == 0:
+            inconclusive.append('S7 ran zero tests')
     head, diffid = repo_ident()
     # -- inconclusive conditions -------------------------------------------------------
     for m in getattr(mod, 'REQUIRED', []):
@@ -186,19 +212,25 @@ def finish(pid, a, mod, results, inconclusive, t0, env):
         os.makedirs(rdir, exist_ok=True)
     for n, (key, ws) in enumerate(unknown.items()):
         path = os.path.join(rdir, '%s-%s-s%d.json' % (key.strip('?').replace('/', '_')[:60], a.tier, a.seed))
-        json.dump({'property': pid, 'tier': a.tier, 'seed': a.seed, 'key': key, 'repo_head': head,
-                   'case': ws[0]['case'], 'fail': ws[0]['fail'], 'more': [w['fail'] for w in ws[1:3]]},
-                  open(path, 'w'), indent=1)
+        wit = {'property': pid, 'tier': a.tier, 'seed': a.seed, 'key': key, 'repo_head': head, 'replay_mode': 'single-case',
+               'case': ws[0]['case'], 'fail': ws[0]['fail'], 'shard': ws[0].get('shard'), 'more': [w['fail'] for w in ws[1:3]]}
+        json.dump(wit, open(path, 'w'), indent=1)
         confirmed = True
-        if n < 6 and ws[0]['case'].get('k') != 'end-of-shard' and not ws[0]['fail']['monitor'].startswith('S1'):
-            try:
-                rr = subprocess.run([PY, '-B', '-m', 'vmon.replay', pid, path], env=env, cwd=HERE,
-                                    capture_output=True, text=True, timeout=1800)
-                confirmed = (rr.returncode == 1)
-                if rr.returncode not in (0, 1):
-                    confirmed = True      # replay itself broke: keep the original observation
-            except subprocess.TimeoutExpired:
-                confirmed = True
+        if n < 6 and ws[0]['case'].get('k') not in ('end-of-shard', 'S7-repo-suite'):
+            def replay(extra):
+                try:
+                    rr = subprocess.run([PY, '-B', '-m', 'vmon.replay', pid, path] + extra, env=env, cwd=HERE, capture_output=True, text=True, timeout=3600)
+                    return rr.returncode != 0          # 1 = reproduced; anything else non-zero: the replay itself broke, keep the observation
+                except subprocess.TimeoutExpired:
+                    return True
+            confirmed = (not ws[0]['fail']['monitor'].startswith('S1')) and replay([])
+            if not confirmed and ws[0].get('shard'):
+                # not reproducible in isolation: the failure may depend on state left by earlier cases of the same shard
+                # (a cross-case history).  Re-execute the shard's prefix in one fresh process.
+                if replay(['--prefix']):
+                    confirmed = True
+                    wit['replay_mode'] = 'shard-prefix'
+                    json.dump(wit, open(path, 'w'), indent=1)
         if confirmed:
             violations.append((key, path, ws[0]['fail']))
         else:
